@@ -18,6 +18,9 @@ def _one(arg):
             return verify_lemma(reg, reg.lemmas[name])
         if kind == "static":
             return reg.statics[name][0](reg)
+        if kind == "step":
+            from pyvc.api import verify_step
+            return verify_step(reg, reg.steps[name])
         return verify_contract(reg, reg.contracts[name])
     except Exception as e:
         import traceback
@@ -38,6 +41,10 @@ def verify_modules(mods, only=None, prop=None, jobs=None):
         if only and n not in only: continue
         if prop and prop not in props: continue
         items.append((mods, n, "static"))
+    for n, l in reg.steps.items():
+        if only and n not in only: continue
+        if prop and prop not in l.props: continue
+        items.append((mods, n, "step"))
     jobs = jobs or min(16, max(1, len(items)))
     if jobs == 1 or len(items) <= 1:
         return [_one(i) for i in items]
